@@ -8,7 +8,7 @@ R5 option wiring.
 import ast
 
 from sa.astutil import (string_builders, effective, call_name, calls_in, dotted, norm, walk_no_nested, try_fold,
-                        names_in, last_attr, call_arg, guards_of, fact_texts, str_consts)
+                        names_in, last_attr, call_arg, guards_of, fact_texts, str_consts, facts_at)
 from sa.loader import AnalysisError
 from sa.canon import canon
 from sa.symexpand import expanded_at, expanded_returns, Expand, substitute
@@ -109,6 +109,13 @@ def _floor_count(expr, fn, hi, lo, step):
     return isinstance(q, ast.BinOp) and isinstance(q.op, ast.Div) and norm(q.right) == step \
         and isinstance(q.left, ast.BinOp) and isinstance(q.left.op, ast.Sub) \
         and norm(q.left.left) == hi and norm(q.left.right) == lo
+
+
+def produced_names(prof):
+    rets = [r for r in walk_no_nested(prof) if isinstance(r, ast.Return)]
+    if len(rets) == 1 and isinstance(rets[0].value, ast.Tuple):
+        return [norm(e) for e in rets[0].value.elts]
+    return []
 
 
 def run(ctx):
@@ -329,6 +336,109 @@ def run(ctx):
     ctx.ob('C10.R3', 'optimum:min-on-energy-component', min_ok and not maxes,
            'the optimum is the minimum over all profile points, keyed on the energy '
            '(position 1 of (pH, energy))', mc, mins[0] if mins else prof)
+    # "within 80 % of the optimum": the level the energies are compared with is
+    # never below the optimum itself, whatever its sign (0.8*opt lies below a
+    # positive optimum, so that not even the optimum is accepted and no range
+    # is reported: the normal case with the neutral reference state)
+    opt_name = None
+    if mins:
+        st_ = mins[0]
+        while not isinstance(st_, ast.stmt):
+            st_ = st_._parent
+        if isinstance(st_, ast.Assign) and isinstance(st_.targets[0], ast.Name):
+            opt_name = st_.targets[0].id
+    from sa.astutil import walk_with_lambdas
+    from sa.consteval import ConstEval, UNKNOWN
+    levels = []
+    for node in walk_with_lambdas(prof):
+        if isinstance(node, ast.Compare) and len(node.ops) == 1 \
+                and isinstance(node.ops[0], (ast.Lt, ast.LtE)) and opt_name:
+            for side in (node.left, node.comparators[0]):
+                sx = side
+                if isinstance(side, ast.Name):
+                    defs = [d for d in walk_no_nested(prof) if isinstance(d, ast.Assign)
+                            and norm(d.targets[0]) == side.id]
+                    if len(defs) == 1:
+                        sx = defs[0].value
+                if any(isinstance(x, ast.Subscript) and norm(x.value) == opt_name for x in ast.walk(sx)) \
+                        and not (isinstance(sx, ast.Subscript) and norm(sx.value) == opt_name):
+                    levels.append((node, side, sx))
+    lev_ok, lev_txt = False, None
+    if len(levels) == 1:
+        node, side, sx = levels[0]
+        lev_txt = norm(sx)
+        vals = {}
+        for c in (-1.0, 1.0, 0.0):
+            class _Sub(ast.NodeTransformer):
+                def visit_Subscript(self, n):
+                    if norm(n.value) == opt_name:
+                        return ast.Constant(value=c)
+                    return self.generic_visit(n)
+            import copy
+            vals[c] = ConstEval({}).ev(_Sub().visit(copy.deepcopy(sx)))
+        # energies are on the small side of the comparison: dg < level
+        dg_small = side is node.comparators[0]
+        lev_ok = dg_small and all(v is not UNKNOWN for v in vals.values()) \
+            and abs(vals[-1.0] - (-0.8)) < 1e-9 and abs(vals[1.0] - 1.2) < 1e-9 and vals[0.0] == 0.0 \
+            and (isinstance(node.ops[0], ast.LtE))
+    ctx.ob('C10.R3', 'range80:level-not-below-optimum', lev_ok,
+           'the 80 %% criterion accepts an energy up to the optimum plus 20 %% of its magnitude, the '
+           'optimum itself included (level %s: -0.8 for an optimum of -1, +1.2 for +1)' % lev_txt,
+           mc, levels[0][0] if levels else prof)
+    # a reported range is an interval on which the criterion holds at every grid
+    # point: it is grown from the optimum, one neighbouring point at a time, while
+    # that point is accepted.  (The smallest and largest accepted pH of the whole
+    # profile span the hump between two wells.)
+    helpers = [n for n in prof.body if isinstance(n, ast.FunctionDef)]
+    grown = False
+    why_g = 'no local interval routine'
+    for h in helpers:
+        hp = [a.arg for a in h.args.args]
+        if len(hp) != 1:
+            continue
+        acc = hp[0]
+        whiles = [w for w in walk_no_nested(h) if isinstance(w, ast.While)]
+        steps = []
+        for w in whiles:
+            body = effective(w.body)
+            if len(body) != 1 or not isinstance(body[0], ast.AugAssign) \
+                    or not isinstance(body[0].target, ast.Name) or try_fold(body[0].value) != 1:
+                continue
+            idx = body[0].target.id
+            delta = '+' if isinstance(body[0].op, ast.Add) else '-'
+            tests = [norm(v).replace(' ', '') for v in (w.test.values if isinstance(w.test, ast.BoolOp)
+                                                        and isinstance(w.test.op, ast.And) else [w.test])]
+            want = '%s(%s[%s%s1][1])' % (acc, pvar, idx, delta)
+            if want in tests:
+                steps.append((idx, delta))
+        rets_h = [r for r in walk_no_nested(h) if isinstance(r, ast.Return)]
+        starts_at_opt = [st for st in walk_no_nested(h) if isinstance(st, ast.Assign)
+                         and norm(st.value).replace(' ', '') == '%s.index(%s)' % (pvar, opt_name)]
+        final = [r for r in rets_h if not (isinstance(r.value, ast.Tuple)
+                                           and all(try_fold(e, {}) is None and norm(e) == 'None' for e in r.value.elts))]
+        opt_accepted = bool(final) and all(
+            any(pol and norm(e).replace(' ', '') == '%s(%s[1])' % (acc, opt_name)
+                for e, pol in facts_at(r, h)) for r in final)
+        if sorted(d for _i, d in steps) == ['+', '-'] and len({i for i, _d in steps}) == 2 \
+                and starts_at_opt and opt_accepted:
+            names_ = {i for i, _d in steps}
+            started = {t.id for st in starts_at_opt for t in st.targets if isinstance(t, ast.Name)}
+            grown = names_ <= started
+            why_g = 'indices %s start at the optimum and move while the next point is accepted' % sorted(names_)
+            users = [n for n in produced_names(prof) if any(
+                isinstance(d.value, ast.Call) and call_name(d.value) == h.name
+                for d in walk_no_nested(prof) if isinstance(d, ast.Assign) and norm(d.targets[0]) == n)]
+            grown = grown and len(users) == 2
+            why_g += '; used for %s' % users
+    extremes = [c for c in calls_in(prof, nested=False) if call_name(c) in ('min', 'max') and c.args
+                and isinstance(c.args[0], ast.Name) and any(
+                    isinstance(d, ast.Assign) and norm(d.targets[0]) == c.args[0].id
+                    and isinstance(d.value, ast.ListComp) and d.value.generators[0].ifs
+                    for d in walk_no_nested(prof))]
+    ctx.ob('C10.R3', 'ranges:interval-around-optimum', grown and not extremes,
+           'both reported ranges are intervals grown from the optimum while the neighbouring grid '
+           'point meets the criterion (%s; %d range ends taken as min/max of a filtered list)'
+           % (why_g, len(extremes)), mc, extremes[0] if extremes else (helpers[0] if helpers else prof))
     rets = [r for r in walk_no_nested(prof) if isinstance(r, ast.Return)]
     order_ok = len(rets) == 1 and isinstance(rets[0].value, ast.Tuple) and \
         len(rets[0].value.elts) == 4
@@ -347,10 +457,21 @@ def run(ctx):
                         for s2 in walk_no_nested(prof):
                             if isinstance(s2, ast.Assign) and norm(s2.targets[0]) == nm:
                                 text += ' ' + norm(s2.value)
+            pred = None
+            for d in defs:
+                if isinstance(d.value, ast.Call) and len(d.value.args) == 1 \
+                        and isinstance(d.value.args[0], ast.Lambda) \
+                        and isinstance(d.value.args[0].body, ast.Compare):
+                    pred = d.value.args[0].body
             if name == pvar:
                 roles[name] = 'profile'
             elif 'min(' in text and 'key=' in text:
                 roles[name] = 'optimum'
+            elif pred is not None and levels and pred is levels[0][0]:
+                roles[name] = 'range80'
+            elif pred is not None and len(pred.ops) == 1 and isinstance(pred.ops[0], ast.Lt) \
+                    and try_fold(pred.comparators[0]) == 0:
+                roles[name] = 'stable'
             elif '0.8' in text:
                 roles[name] = 'range80'
             elif '< 0.0' in text or '< 0' in text:
